@@ -22,6 +22,10 @@ const maxHangs = 3
 
 var hangs int
 
+var slowCalls int
+
+const hangGrace = 80 * time.Second
+
 func safeCall(f func()) (perr string) {
 	if hangs >= maxHangs {
 		return "skipped: earlier calls did not return"
@@ -40,8 +44,16 @@ func safeCall(f func()) (perr string) {
 	case msg := <-done:
 		return msg
 	case <-time.After(hangLimit):
+	}
+	// not back within the limit: on a loaded machine a slow call is not a hang, so it gets a long grace period
+	// before it is reported (a genuine non-termination still is, 3 times at most per stream)
+	select {
+	case msg := <-done:
+		slowCalls++
+		return msg
+	case <-time.After(hangGrace):
 		hangs++
-		return fmt.Sprintf("hang: the call did not return within %v", hangLimit)
+		return fmt.Sprintf("hang: the call did not return within %v", hangLimit+hangGrace)
 	}
 }
 
